@@ -63,6 +63,10 @@ impl Dimensionality {
     }
 
     pub fn pow(mut self, exp: i64) -> Dimensionality {
+        if exp == 0 {
+            // Never carry a base unit with exponent zero.
+            return Dimensionality::new();
+        }
         for (_, power) in self.dims.iter_mut() {
             *power *= exp;
         }
